@@ -94,6 +94,12 @@ CLAIMED = {
    note="PARTIAL proof (see text). Not modelled: pairing of definitions through aliases and generic instantiations (resolveAllChanges/SemanticPairs) - exercised by the rewrite/edit-class differential only. Known finding: dimensioned types cannot be made optional / union members. One defect fixed (respelled previous version rejected).",
    technique="Lean 4 model + kernel-checked table/structural theorems (partial) + differential correspondence with ValidateEvolution + documented-class oracle",
    design="§7 C06"),
+ "C05": dict(
+   engine="evolution",
+   text="Lean model conv of the value conversions the generated C++ performs between schema versions (records field-by-name with added fields zeroed and removed ones dropped, element-wise vectors/streams/optionals, optional<->scalar<->union through the matched case with zero values, union<->union through the greedy matching with a runtime error for cases without counterpart, integer conversions with the generated overflow checks, integers<->canonical decimal strings). Kernel-checked: totality; a value converted between identical types is unchanged (types built from primitives and containers, any depth - partial: records/enums/unions evaluated only); the documented record/overflow behaviours on concrete shapes. Tied to the code by execution: random and directed chains M0->M1->M2 of accepted edits (every documented compatible / partially compatible class at a field and at a step); M2 lists M0 and M1, its C++ is generated and compiled on every run; Lean-encoded streams of each listed version are read by the new reader and re-written, and newest-version values are written for each listed version; outputs are decoded by the Lean reference decoder (with the right schema in the header) and compared with conv; predicted runtime errors must be raised; crashes are violations.",
+   note="PARTIAL: conversions involving floating point/complex numbers and non-canonical number<->string text are not modelled (checked for 'no crash' only); Python/MATLAB have no evolution support (documented). Trusted: Lean kernel, evogen.py, C++ ndarray shim (default dynamic array = 0-d with one element, as xtensor). Four defects fixed (stale values across stream items; three families of non-compiling conversion code).",
+   technique="Lean 4 model + kernel-checked structural theorems (partial) + differential execution of freshly generated C++ against the model",
+   design="§7 C05"),
 }
 NOT_YET = "machinery for this property is not built yet in this round (see DESIGN.md §10 build order)"
 checks, na = [], []
